@@ -821,9 +821,27 @@ def rt_records(obj, reb, dt, av, conc, extra=None):
     cssame = False
 
     def client_set():
+        # the real SecopClient.setParameterFromString, with the network replaced by a recorder
+        from frappy.client import SecopClient
+        sent = {}
+
+        class Recorder(SecopClient):
+            def connect(self, *a, **k):
+                pass
+
+            def request(self, action, ident=None, data=None):
+                sent['data'] = data
+
+            def __del__(self):
+                pass
+
+        c = object.__new__(Recorder)
+        c.modules = {'m': {'parameters': {'p': {'datatype': reb}}}}
+        c.identifier = {('m', 'p'): 'm:p'}
+        c.cache = {('m', 'p'): None}
         text = str(CacheItem(cval, datatype=reb))
-        value = reb.from_string(text)                           # as SecopClient.setParameterFromString does
-        data = json.loads(json.dumps(value, allow_nan=False))   # ... and sends it as the data of a change request
+        c.setParameterFromString('m', 'p', text)
+        data = json.loads(json.dumps(sent['data'], allow_nan=False))   # the data part of the change request
         return obj.validate(obj.import_value(data))
     cs, rawc = outcome_of(client_set, dt, av, conc)
     if cs['ok']:
